@@ -4,6 +4,8 @@ import (
 	"bytes"
 	"context"
 	"fmt"
+	"github.com/libsv/go-bt/v2/bscript/interpreter"
+	"github.com/libsv/go-bt/v2/bscript/interpreter/scriptflag"
 	"strings"
 
 	"github.com/libsv/go-bt/v2"
@@ -21,6 +23,28 @@ func init() {
 			unlock = *t.Inputs[idx].UnlockingScript
 		}
 		r := implExec(mustU(a[0], 32), unlock, unE(a[4]), a[1], idx, mustU(a[3], 64), 1)
+		// the same check through the engine's other accepted way of naming the spent output — scripts given with
+		// WithScripts, the value in a previous output that carries no script — on a transaction object that still holds the
+		// values it was built with, and on one freshly parsed from bytes (all spent values zero): the verdict is the same
+		acc := strings.HasPrefix(r.verdict, "accept")
+		for which := 0; which < 2; which++ {
+			tx := parseDesc(a[1])
+			if which == 1 {
+				if t2, err := bt.NewTxFromBytes(tx.Bytes()); err == nil {
+					tx = t2
+				}
+			}
+			us, ls := bscript.NewFromBytes(append([]byte{}, unlock...)), bscript.NewFromBytes(unE(a[4]))
+			var err error
+			crashed := safe(func() string {
+				err = interpreter.NewEngine().Execute(interpreter.WithFlags(scriptflag.Flag(mustU(a[0], 32))),
+					interpreter.WithTx(tx, idx, &bt.Output{Satoshis: mustU(a[3], 64)}), interpreter.WithScripts(ls, us))
+				return ""
+			})
+			if crashed != "" || (err == nil) != acc {
+				return fmt.Sprintf("route-dependent-verdict main=%s other(%d)=%v %s mut=%s t=%s", r.verdict, which, err, crashed, r.mut, strings.Join(r.trace, "|"))
+			}
+		}
 		return fmt.Sprintf("%s mut=%s t=%s", r.verdict, r.mut, strings.Join(r.trace, "|"))
 	}
 	generators["C04"] = genC04
